@@ -382,6 +382,34 @@ func checkSliceArrayAlike(r *Run, prog *Program, a *Anchors, pfx string) {
 					ok = true
 				}
 			}
+			if !ok {
+				// `kind == Slice || kind == Array` as the value of a predicate: the array test is not a branch of its own
+				// but the other operand of the disjunction the slice test short-circuits
+				for _, b := range fn.Blocks {
+					for _, ins := range b.Instrs {
+						bo, isBO := ins.(*ssa.BinOp)
+						if !isBO || bo.Op != token.EQL || !sameSubject(s.x, bo.X) {
+							continue
+						}
+						if c, isC := bo.Y.(*ssa.Const); isC && c.Value != nil {
+							if v, _ := constant.Int64Val(c.Value); v == kArrayC {
+								if refs := bo.Referrers(); refs != nil {
+									for _, u := range *refs {
+										if phi, isPhi := u.(*ssa.Phi); isPhi && phi.Block() == s.target {
+											ok = true
+										}
+										if _, isRet := u.(*ssa.Return); isRet && len(s.target.Instrs) > 0 {
+											if _, retT := s.target.Instrs[len(s.target.Instrs)-1].(*ssa.Return); retT {
+												ok = true
+											}
+										}
+									}
+								}
+							}
+						}
+					}
+				}
+			}
 			r.Check(pfx+".slice-array-alike", fmt.Sprintf("%s:slice-test#%d", fn.Name(), k+1), prog.pos(s.pos), ok,
 				fn.Name()+" singles out values of kind Slice here but not, in the same way, those of kind Array: arrays are lists everywhere else")
 		}
